@@ -181,8 +181,13 @@ pub fn buffered_input_from_reader_with_limit<'a, R: Read + 'a>(
     max_bytes: Option<usize>,
 ) -> (ReaderInput<'a>, ReaderInputError) {
     // Auto-detect encoding (BOM or guess), decode to UTF-8 on the fly.
+    // UTF-8 input (with or without a byte-order mark) is passed through untouched, so that
+    // `ChunkedChars` sees - and reports - malformed or cut-off sequences instead of the
+    // replacement characters a transcoder would put in their place.
     let decoder = DecodeReaderBytesBuilder::new()
         .encoding(None) // None = sniff BOM / use heuristics; set Some(encoding) to force
+        .utf8_passthru(true)
+        .strip_bom(true)
         .build(reader);
 
     let error: ReaderInputError = Rc::new(RefCell::new(None));
